@@ -184,6 +184,26 @@ func c18GenCount(r *rand.Rand, id int, conc bool) c18Case {
 			}(g)
 		}
 		wg.Wait()
+		// first use: in every round a NEW identity is incremented once by each of 8 goroutines released together,
+		// so its registration races with its first increments; every increment must land in the one series
+		for round := 0; round < 120; round++ {
+			fu := c18Ident{name: fmt.Sprintf("first_use_%d", round), tags: map[string]string{"kind": "x", "round": fmt.Sprint(round % 3)}}
+			start := make(chan struct{})
+			var wg2 sync.WaitGroup
+			for g := 0; g < 8; g++ {
+				wg2.Add(1)
+				go func(g int) {
+					defer wg2.Done()
+					tags := fu.freshTags(rand.New(rand.NewSource(int64(round*8 + g))))
+					<-start
+					col.Counter(fu.name, tags).Inc()
+				}(g)
+				c.Lookups = append(c.Lookups, fu.lookup())
+			}
+			close(start)
+			wg2.Wait()
+			ids = append(ids, fu)
+		}
 	} else {
 		for _, o := range ops {
 			apply(o, r)
